@@ -105,7 +105,10 @@ impl Property for C04 {
         let (l1, l2) = (log_from_json(&v["unopt_log"]), log_from_json(&v["opt_log"]));
         let same = unopt == opt && l1 == l2;
         if !same {
-            if is_overflow(&unopt) && !is_overflow(&opt) {
+            // (also when the optimised run overflows *later*: it made every host call of the
+            // unoptimised run and then more before its own overflow)
+            let got_further = l2.len() > l1.len() && l2[..l1.len()] == l1[..];
+            if is_overflow(&unopt) && (!is_overflow(&opt) || got_further) {
                 // The one permitted difference: built-in arithmetic whose result is unused may be
                 // skipped.  Once an overflow was skipped the rest of the run is not comparable.
                 j.classes.push("overflow_skipped_under_optimisation".into());
@@ -144,7 +147,7 @@ impl Property for C04 {
     fn assumptions(&self) -> Vec<String> {
         vec![
             "pure differential: the reference interpreter is not consulted".into(),
-            "when the unoptimised run ends in 'Arithmetic overflow' and the optimised run does not, the case is counted but not compared further (permitted difference)".into(),
+            "when the unoptimised run ends in 'Arithmetic overflow' and the optimised run does not - or overflows only after having made all of the unoptimised run's host calls and more - the case is counted but not compared further (permitted difference)".into(),
         ]
     }
     fn describe(&self, case: &Value, obs: &Obs) -> Value {
